@@ -155,7 +155,8 @@ def replaced_box_width(box, containing_block):
     if box.width == 'auto':
         if ratio is not None:
             # Point #2 second part
-            box.width = box.height * ratio
+            used_height = max(box.min_height, min(box.height, box.max_height))
+            box.width = used_height * ratio
         elif width is not None:
             # Point #4
             box.width = width
